@@ -15,8 +15,8 @@ def run(ctx):
     from ..scen_misc import functional, fold
     functional(ctx); fold(ctx)
     from ..scen_kernels2 import kernels2, kernels_fn
-    from ..scen_kernels2 import regex_kernels
-    regex_kernels(ctx)
+    from ..scen_kernels2 import regex_kernels, parse_kernel
+    regex_kernels(ctx); parse_kernel(ctx)
     kernels2(ctx); kernels_fn(ctx)       # table-driven kernels: logic, type tests, casts, list / object / string helpers, functions with a function argument
     from ..scen_nas import nas_wiring
     nas_wiring(ctx)
